@@ -166,7 +166,10 @@ def work(job):
                  b"info!(\"trailing spaces\");   \n   \n\t\nwarn!(\"x\");  ", b"info!(\"[ref: 1] [ref: 1] twice\"); info!(\"[ref: 1] \");\ninfo!(\"x\");",
                  b"info!(\"last statement, no newline\")", b"\n\n\ninfo!(\"only\")\n\n\n", b"info!(ref = 1; \"[ref: 2] both forms\"); info!(\"z\");\n",
                  ("info!(\"" + "é" * 5000 + "\"); warn!(\"after a long multi-byte message\");\n").encode(),
-                 b"info!(\"x\");" * 700]
+                 b"info!(\"x\");" * 700,
+                 b'fn n() {\n    info!("[ref: 1] starting");\n    info!(outcome = run_probe_with(|| warn!("probe failed")); "[ref: 2] probe done");\n'
+                 b'    error!(a = f(|| info!(k = 1; "inner with key")), b = 2; "outer without reference");\n}\n',
+                 b'fn t() -> &\'static str {\n    info!("health probe answered");\n    "ok"\n}\nfn u() -> String { warn!(a = 1; "x"); "tail".to_string() }\n']
         allc = list(c17.CRAFTED) + extra
         files = {"src/c%04d.rs" % k: d for k, d in enumerate(allc[payload::4])}
         structured = (i % 2 == 1)
